@@ -390,7 +390,7 @@ func definitelyError(v ssa.Value) bool {
 	case *ssa.UnOp:
 		if x.Op == token.MUL {
 			if g, ok := x.X.(*ssa.Global); ok {
-				return len(g.Name()) > 3 && g.Name()[:3] == "Err"
+				return (len(g.Name()) > 3 && g.Name()[:3] == "Err") || g.Name() == "EOF"
 			}
 		}
 	case *ssa.Alloc:
